@@ -41,6 +41,18 @@ TIME_CALLS = ("time.time", "sorted", "min", "list", "tuple", ".get", "int", "flo
               "math.floor", "floor")
 
 
+def _stored_sources(interp, raw, out):
+    """(table, column) of the channel rows a rounded value is read from"""
+    from ..terms import walk
+    for x in walk(raw):
+        if x[0] == "sub" and x[2][0] == "const" and isinstance(x[2][1], str):
+            for y in walk(x[1]):
+                if y[0] in ("rows", "row") and len(y) > 1:
+                    st = interp.sql_sites.get(y[1])
+                    if st is not None and st.kind == "select":
+                        out.add((st.table, x[2][1]))
+
+
 def _not_a_recorded_time(raw):
     """The blur must be applied to a time as it was taken or stored: the clock,
     a stored `added` value or an order statistic of them.  Arithmetic or a
@@ -69,6 +81,7 @@ def run(ctx):
         if t is None or any(c not in t.colnames() for c in cols):
             raise AnalysisError("R16.sinks: usage schema lacks %s.%s" % (tbl, cols))
     nsinks = 0
+    first_cols = set()
     seen_tables = set()
     from ..events import each_event
     if True:
@@ -101,6 +114,7 @@ def run(ctx):
                             if mentions(raw, lambda x: x == BLUR):
                                 bad = "odd blur expression %s" % show(val)[:80]
                                 break
+                            _stored_sources(interp, raw, first_cols)
                             odd = _not_a_recorded_time(raw)
                             if odd:
                                 bad = "the value that is rounded down is %s: %s, so the " \
@@ -110,6 +124,23 @@ def run(ctx):
                     ctx.ob("R16.dom", "%s.%s at %s" % (tbl, col, construct_of(e)),
                            bad is None, e, bad or "")
     ctx.require("R16.sinks", nsinks, 3, "usage INSERTs binding a timestamp column")
+    # R16.first: a stored arrival time that a record's start is computed from is
+    # the time of the *first* arrival only if it is written once, when its row
+    # is created: an UPDATE of that column moves the start to a later arrival
+    ctx.rule("R16.first", "the stored arrival times that `started` is rounded from are "
+             "written only by the INSERT that creates their row")
+    nfirst = 0
+    for (tbl, col) in sorted(first_cols):
+        nfirst += 1
+        ups = [e for _p, e, _l in each_event(model, model.runtime_entries(), ("sql",))
+               if e["db"] == "chan" and e["stmt"].kind == "update" and
+               e["stmt"].table == tbl and col in e["stmt"].cols]
+        ctx.ob("R16.first", "`%s`.`%s` is never rewritten" % (tbl, col), not ups,
+               ups[0] if ups else "", "" if not ups else
+               "%s rewrites the arrival time a usage record's start is computed from: the "
+               "recorded start is then a later arrival, not the true start rounded down"
+               % construct_of(ups[0]))
+    ctx.require("R16.first", nfirst, 2, "stored arrival-time columns feeding `started`")
     for tbl in SINK_COLS:
         ctx.ob("R16.sinks", "records of usage `%s` are written somewhere" % tbl,
                tbl in seen_tables, "", "" if tbl in seen_tables else
